@@ -21,7 +21,12 @@ VARIES = (
     "shape (function, lambda, partial, bound method, callable object, unhashable dataclass); seeded replays of the global NumPy "
     "RNG against fresh objects and against explicitly spelt-out configurations; confusion matrices in narrow integer dtypes and "
     "with float cells up to 1e100; DataFrames with shuffled index, reordered columns and missing values in unused columns; and "
-    "it compares against independent (exact rational / counting) reference implementations with relative tolerances")
+    "it compares against independent (exact rational / counting) reference implementations with relative tolerances; results "
+    "handed out by earlier calls are re-checked after later calls; caller arrays are passed read-only; labels come as lists, "
+    "Series, bool/int/str/float with any pos_label; target/alpha arrays come in Fortran order and with 1e5 entries; objects of "
+    "user subclasses; one class packed 1e-12 apart inside a gap of the other; 1e5-1e16 easy samples; group names given as "
+    "subsets/permutations, 64-bit ids, absent classes passed as []; Unicode look-alike strings, named row indexes; smoothing "
+    "configurations; unused configuration fields set; integer-typed thresholds and parameters everywhere")
 for pid, p in props.items():
     wt = f"{root}/{pid}"
     if not os.path.exists(wt):
@@ -34,7 +39,7 @@ for pid, p in props.items():
             prev.append(f"- {os.path.basename(d.rstrip('/'))}: {txt[:260]}")
     prevtxt = "\n".join(prev) if prev else "(none)"
     low = pid.lower()
-    txt = f"""You are helping to evaluate a verification effort for the Python library `score_analysis` (martinsbruveris/score-analysis: binary/multiclass classification metrics, threshold setting, EER, AUC, ROC curves, bootstrap confidence intervals). Your job is to act as a realistic source of *regressions*: produce TWO independent small changes to the library, each of which breaks the semantic property below while the library still imports and its existing test-suite still passes. This is a FIFTH round. Four earlier rounds produced the changes summarised at the end, and the verification effort caught all of them in the end; by now it varies {VARIES}. Find something it still does not look at. Take your time to read the code the property depends on line by line and look for an input condition *inside the stated domain* that none of the above would produce, an interaction between two functions, or a semantic slip (wrong one of two similar quantities, off-by-one in a rarely taken branch, a condition that is slightly too wide or too narrow) that only shows for a structured kind of input.
+    txt = f"""You are helping to evaluate a verification effort for the Python library `score_analysis` (martinsbruveris/score-analysis: binary/multiclass classification metrics, threshold setting, EER, AUC, ROC curves, bootstrap confidence intervals). Your job is to act as a realistic source of *regressions*: produce TWO independent small changes to the library, each of which breaks the semantic property below while the library still imports and its existing test-suite still passes. This is a SIXTH round. Five earlier rounds produced the changes summarised at the end, and the verification effort caught all of them in the end; by now it varies {VARIES}. Find something it still does not look at. Take your time to read the code the property depends on line by line and look for an input condition *inside the stated domain* that none of the above would produce, an interaction between two functions, or a semantic slip (wrong one of two similar quantities, off-by-one in a rarely taken branch, a condition that is slightly too wide or too narrow) that only shows for a structured kind of input.
 
 ## The property ({p['id']}: {p['title']})
 Statement: {p['statement']}
